@@ -37,3 +37,33 @@ Definition put_on_full (max_tries : Z) : Z := (max_tries - 1).
 
 (* if max_tries == 0: log.error(..) *)
 Definition put_gave_up_test (max_tries : Z) : bool := (max_tries =? 0).
+
+(* ThreadManager.__init__: self.running = False *)
+Definition tm_init_running : bool := false.
+
+(* ThreadManager.start: self.running = True *)
+Definition tm_start_running : bool := true.
+
+(* ThreadManager.stop: self.running = False *)
+Definition tm_stop_running : bool := false.
+
+(* ThreadManager.stop: if self.running: *)
+Definition tm_stop_test (running : bool) : bool := running.
+
+(* self.thread = threading.Thread(target=func, args=[self.event, *args]) *)
+Definition tm_thread_runs_func_with_own_event : bool := true.
+
+(* results_thread = ThreadManager('results', self._get_results, [results, results_queue]); results_queue = mgr.Queue(RESULTS_QUEUE_SIZE) *)
+Definition run_mp_collector_wired : bool := true.
+
+(* if results_queue is not None and results_collection is not None: raise SearchTaskError *)
+Definition rm_conflict_test (has_queue has_collection : bool) : bool := (has_queue && has_collection).
+
+(* SearchTaskResultsManager: results_store / results_queue / results_collection return the constructor arguments *)
+Definition rm_properties_are_arguments : bool := true.
+
+(* FileSearcher._run_mp: SearchTaskResultsManager(results_store, results_queue=results_queue) *)
+Definition run_mp_manager_mode : bool * bool := (true, false).
+
+(* FileSearcher._run_single: SearchTaskResultsManager(results_store, results_collection=results_collection) *)
+Definition run_single_manager_mode : bool * bool := (false, true).
